@@ -320,6 +320,52 @@ fn cli_defaults(ctx: &mut Ctx) {
             }
         }
     }
+    // (3) the target set given by a config file (one name per line): every line counts, with LF or CRLF line ends, with or
+    // without a final line break, alone or next to a flag
+    let dir = std::path::PathBuf::from(format!("{}/.build/tmp/c06-{}", crate::engine::verif_dir(), std::process::id()));
+    let _ = std::fs::create_dir_all(&dir);
+    let file_sets: Vec<Vec<&str>> = vec![vec!["a"], vec!["feature1", "a"], vec!["ab", "A", "feature10"]];
+    'files: for (si, set) in file_sets.iter().enumerate() {
+        for (li, (eol, last)) in [("\n", true), ("\n", false), ("\r\n", true), ("\r\n", false)].iter().enumerate() {
+            let mut text = set.join(eol);
+            if *last {
+                text.push_str(eol);
+            }
+            let path = dir.join(format!("targets-{si}-{li}.txt"));
+            if std::fs::write(&path, &text).is_err() {
+                ctx.inconclusive = Some("cannot write a scratch target file".into());
+                break 'files;
+            }
+            for with_flag in [false, true] {
+                let mut args = vec![format!("--removal-marker-target-config={}", path.display())];
+                if with_flag {
+                    args.push("--removal-marker-target-name=zz9".to_string());
+                }
+                for q in probes.iter().filter(|q| !q.contains('"')) {
+                    let src = format!("a<!-- <removal-marker name=\"{q}\"> -->X<!-- </removal-marker> -->b");
+                    let out = match run_cli(&args, Some(src.as_bytes()), &[], None) {
+                        Ok(o) => o,
+                        Err(e) => {
+                            ctx.inconclusive = Some(e);
+                            break 'files;
+                        }
+                    };
+                    n += 1;
+                    let text_out = String::from_utf8_lossy(&out.stdout).to_string();
+                    let member = set.contains(&q.as_str()) || (with_flag && q == "zz9");
+                    let expect = if member { "ab".to_string() } else { src.clone() };
+                    if out.status != 0 || text_out != expect {
+                        ctx.failure = Some(Failure { broken: false, sub: "cli-target-file".into(), case: json!({"file_text": text, "flag": with_flag, "stdin": src, "expect_stdout": expect}), tape: None, message: format!("chiritori with the target file {:?}{} on {:?}: exit {} output {:?}, expected {:?}", text, if with_flag { " and --removal-marker-target-name=zz9" } else { "" }, src, out.status, text_out, expect) });
+                        break 'files;
+                    }
+                }
+            }
+        }
+    }
+    let _ = std::fs::remove_dir_all(&dir);
+    if ctx.failed() || ctx.inconclusive.is_some() {
+        return;
+    }
     ctx.stats.evaluations += n;
     ctx.stats.counted += n;
     ctx.subs_run.push(json!({"sub": "cli", "process_runs": n, "help_defaults": defaults}));
@@ -336,6 +382,28 @@ pub fn replay(sub: &str, case: &Value, obs: &mut Obs) -> Result<Verdict, String>
             let same = if expect.trim() == "[]" { matches!(serde_json::from_str::<Value>(&text), Ok(Value::Array(a)) if a.is_empty()) } else { text == expect };
             if out.status != 0 || !same {
                 Ok(Verdict::Fail(format!("chiritori {args:?} on {stdin:?}: exit {} output {text:?}, expected {expect:?}", out.status)))
+            } else {
+                Ok(Verdict::Pass)
+            }
+        }
+        "cli-target-file" => {
+            let text = case["file_text"].as_str().unwrap_or("").to_string();
+            let stdin = case["stdin"].as_str().unwrap_or("").to_string();
+            let expect = case["expect_stdout"].as_str().unwrap_or("").to_string();
+            let dir = std::path::PathBuf::from(format!("{}/.build/tmp/c06-replay-{}", crate::engine::verif_dir(), std::process::id()));
+            std::fs::create_dir_all(&dir).map_err(|e| e.to_string())?;
+            let path = dir.join("targets.txt");
+            std::fs::write(&path, &text).map_err(|e| e.to_string())?;
+            let mut args = vec![format!("--removal-marker-target-config={}", path.display())];
+            if case["flag"].as_bool().unwrap_or(false) {
+                args.push("--removal-marker-target-name=zz9".to_string());
+            }
+            let out = run_cli(&args, Some(stdin.as_bytes()), &[], None);
+            let _ = std::fs::remove_dir_all(&dir);
+            let out = out?;
+            let got = String::from_utf8_lossy(&out.stdout).to_string();
+            if out.status != 0 || got != expect {
+                Ok(Verdict::Fail(format!("chiritori with the target file {text:?} on {stdin:?}: exit {} output {got:?}, expected {expect:?}", out.status)))
             } else {
                 Ok(Verdict::Pass)
             }
